@@ -12,16 +12,18 @@ INFO = {
 }
 
 
-def token_inst(n):
+def token_inst(n, op):
     b = n + 2
-    return mk("c20_token_len%d" % n, "C20/c20_token.c", U, {"LEN": n, "NNODES": 1, "NPAIRS": 1, "NSYMS": 1},
+    return mk("c20_%s_len%d" % (("token", "atom")[op], n), "C20/c20_token.c", U,
+              {"LEN": n, "OP": op, "NNODES": 1, "NPAIRS": 1, "NSYMS": 1},
               unwind={"skip_ws": b, "parse_symbol": b, "parse_integer_": b + 1, "digit2int": 18,
                       "strchr": 72, "strlcpy": b + 1, "vp_alloc": b + 1, "vp_free": 3,
                       "vp_exact_text": b, "ref_token": b, "check_atom": b, "memcpy": b, "strlen": b},
+              extra_cbmc=["--unwindset", "sx_parse_list:0,sx_parse_:1,sx_destroy:1"],
               default_unwind=2, cflags=CF, encoded_units=ENC, replay_units=U,
               hang_is_violation=True, replay_timeout=10)
 
 
 def instances(tier):
     lens = range(0, 6) if tier == "quick" else range(0, 9)
-    return [token_inst(n) for n in lens]
+    return [token_inst(n, op) for n in lens for op in (0, 1)]
